@@ -918,10 +918,19 @@ func (m *model) ruleLoopExits(s *report.Sink) {
 			return ok && !val
 		})
 		stored := false
+		isFail := func(x atom) bool { ok, pol := eqNil(x, m.isResErr); return ok && !pol }
 		for _, a := range fieldAccesses(fn, m.Sched) {
 			if a.f == m.fErr && a.kind == "write" && m.isResErr(a.store.Val) && ssax.Before(a.in, ret) {
 				// stored under the failure condition, i.e. inside the region where err != nil
-				if find(userAtoms(m.localAtoms(a.in.Block())), func(x atom) bool { ok, pol := eqNil(x, m.isResErr); return ok && !pol }) != nil {
+				if find(userAtoms(m.localAtoms(a.in.Block())), isFail) != nil {
+					stored = true
+				}
+			}
+		}
+		// ... or in the helper whose boolean result selects this exit, before the return that reports it
+		if notCont != nil && notCont.via != nil {
+			for _, a := range fieldAccesses(notCont.via.Parent(), m.Sched) {
+				if a.f == m.fErr && a.kind == "write" && m.isResErr(a.store.Val) && ssax.Before(a.in, notCont.via) && find(userAtoms(m.atomsOf(a.in)), isFail) != nil {
 					stored = true
 				}
 			}
@@ -1135,10 +1144,11 @@ func (m *model) ruleContinue(s *report.Sink) {
 	first := false
 	for _, a := range errStores {
 		good := a.kind == "write" && m.isDoneJob(a.base) && m.isResErr(a.store.Val) && m.armOf(a.in) == m.armDone.name
-		if good && inFail(a.in.Block()) && m.mustPass(failEntry, inFail, a.in) {
+		rb := m.rootSite(a.in).Block() // where the store happens as seen from the loop (the call, for a store in a helper)
+		if good && inFail(rb) && m.mustPass(failEntry, inFail, a.in) {
 			first = true
 		}
-		if good && !inFail(a.in.Block()) && m.mustPass(m.armDone.entry, m.armDone.inside, a.in) {
+		if good && !inFail(rb) && m.mustPass(m.armDone.entry, m.armDone.inside, a.in) {
 			first = true // recorded unconditionally (nil for successes): also fine
 		}
 		if !good {
